@@ -53,3 +53,30 @@ int fx3_index_helper_s(wchar_t *dest, size_t dmax, const wchar_t *src, size_t sl
     invoke_safe_str_constraint_handler("fx3_index_helper_s: nospc", NULL, 406);
     return 406;
 }
+
+/* a libc wide formatter that fails (-1: n or more characters requested) promises nothing about the array */
+#include <stdarg.h>
+extern int vswprintf(wchar_t *, size_t, const wchar_t *, va_list);
+int fx3_wfmt_fail_open_s(wchar_t *dest, size_t dmax, const wchar_t *fmt, va_list ap) {
+    int ret;
+    if (dest == NULL || dmax == 0 || dmax > 1024) { invoke_safe_str_constraint_handler("fx3_wfmt: bad", NULL, 400); return -400; }
+    if (fmt == NULL) { *dest = L'\0'; invoke_safe_str_constraint_handler("fx3_wfmt: fmt", NULL, 400); return -400; }
+    ret = vswprintf(dest, dmax, fmt, ap);
+    if (ret < 0) {
+        invoke_safe_str_constraint_handler("fx3_wfmt: too long", NULL, 406);
+        return -406;                       /* dest left as the failed vswprintf left it */
+    }
+    return ret;
+}
+int fx3_wfmt_fail_reset_s(wchar_t *dest, size_t dmax, const wchar_t *fmt, va_list ap) {
+    int ret;
+    if (dest == NULL || dmax == 0 || dmax > 1024) { invoke_safe_str_constraint_handler("fx3_wfmt: bad", NULL, 400); return -400; }
+    if (fmt == NULL) { *dest = L'\0'; invoke_safe_str_constraint_handler("fx3_wfmt: fmt", NULL, 400); return -400; }
+    ret = vswprintf(dest, dmax, fmt, ap);
+    if (ret < 0) {
+        *dest = L'\0';
+        invoke_safe_str_constraint_handler("fx3_wfmt: too long", NULL, 406);
+        return -406;
+    }
+    return ret;
+}
